@@ -368,7 +368,7 @@ def factors_file(intro_exe):
         if p.returncode != 0: raise RuntimeError('introspect died')
         open(intro + '.tmp', 'wb').write(p.stdout); os.replace(intro + '.tmp', intro)
     fa = os.path.join(tree_dir(), 'factors.txt')
-    if not os.path.exists(fa):
+    if not os.path.exists(fa) or not os.path.exists(fa + '.systems'):
         subprocess.check_call([sys.executable, os.path.join(VERIF, 'tools', 'symx.py'), 'factors', intro, fa])
     return fa
 
